@@ -26,6 +26,10 @@ def what_fn(case, obs, verdict):
     if why == "redirect-followups":
         return ("the gun's client followed the target's redirects although `redirect` is off, or did not follow each 301 answer once "
                 "although it is on (format %s)" % (f[1] if len(f) > 1 else "?"))
+    if why == "tunnel":
+        return ("connect gun: the connections its target (the tunnel front) accepted do not each start with ONE CONNECT whose authority "
+                "and Host are the target, or the tunnels do not each arrive as one connection at the server behind (format %s)"
+                % (f[1] if len(f) > 1 else "?"))
     if why == "connection-count":
         return ("connections seen by the target do not satisfy conn_ok (keep-alive + per-instance clients: <= instances; keep-alive off: "
                 "== requests), format %s" % (f[1] if len(f) > 1 else "?"))
@@ -48,6 +52,11 @@ def run(ctx):
               "Cookie values compared joined by '; ' as HTTP/2 carries them); header lines (in-file and configured) written '[k: v]' / '[k:v]' / '[  k \\t:   v ]' and decoded on the "
               "model side by the extracted decode_header, blank lines around the items, no final newline; raw + redirect: true cases: connection count judged with the "
               "loose bound (net/http's Client.Do does not always reuse the connection of a ReadRequest-built request, design/C09.md); "
+              "round 7: the gun kind connect (plain and connect-ssl) as a dimension of wire and hist cases: the gun's target is a tunnel front that answers the CONNECT "
+              "and pipes to the recording server (tun = CONNECTs / connections behind / foreign authorities / non-CONNECT, judged c/c/0/0 with c = accepted - probes); "
+              "dial.timeout as a dimension (300 ms / 1 s on any case; 250-300 ms on the 3% of wire cases whose instances pause 500-650 ms between their requests, so that "
+              "every instance outlives it); hist cases with W<ms> events (waits of dial.timeout + 200..250 ms with requests in flight or not) compared exactly with the "
+              "extracted TIMED transport model tt_run under the extracted gun_arm (Model/HttpTunnel.v); "
               "non-trivial: every tr and hist case; wire cases where the configuration defines headers and either some key "
               "(canonical form) is defined both by the configuration and by an entry/in-file header, or the file has more "
               "than one item; distinct = distinct case lines. Header comparison: map sorted by canonical key, value lists in "
@@ -60,15 +69,18 @@ def run(ctx):
         # keep-alive / connection sentence (Model/HttpConns.v, Proofs/HttpConnsProofs.v); request body / answer under the gun
         # options that make Shoot read them (Model/HttpShoot.v, Proofs/HttpShootProofs.v)
         # the "[key: value]" line syntax (Model/HdrLine.v, Proofs/HdrLineProofs.v)
-        bridge_files=["Properties/C09_conns.v", "Properties/C09_shoot.v", "Properties/C09_hdrline.v"],
+        # round 7: the connect gun's dial function, deadlines and timed histories (Model/HttpTunnel.v, Proofs/HttpTunnelProofs.v)
+        bridge_files=["Properties/C09_conns.v", "Properties/C09_shoot.v", "Properties/C09_hdrline.v", "Properties/C09_tunnel.v"],
         trusted=[
             "extraction: ExtrOcamlBasic only; OCaml driver ocaml/C09/main.ml + ocaml/common/conv.ml",
             "correspondence harness harness/cmd/hC09 (config decoder, http providers uri/uripost/http-json/raw, http gun, engine: all real; "
-            "httptest plain/TLS target + decoy server recording method, RequestURI, Host, headers, body, connections)",
+            "httptest plain/TLS target + decoy server recording method, RequestURI, Host, headers, body, connections; tunnel front for the connect gun, "
+            "harness/cmd/hC09/tunnel.go)",
             "modelled, not verified: net/url.Parse, http.NewRequest, http.ReadRequest (entry tokenisation; model takes method/uri/host/"
             "header lines/body as given), textproto.CanonicalMIMEHeaderKey (concrete Gallina copy canon_mime, compared on every case), "
             "net/http client serialisation, TLS; connection pooling of net/http's Transport is modelled by Model/HttpConns.v (idle parking per client) and compared on every case "
-            "through the extracted conn_ok; client assignment (prepareClientPool/Bind/clientpool.Next) modelled by hand and compared through BaseGun.Client of every engine-bound gun",
+            "through the extracted conn_ok; client assignment (prepareClientPool/Bind/clientpool.Next) modelled by hand and compared through BaseGun.Client of every engine-bound gun; "
+            "deadlines of net.Conn and what net/http does with a connection whose read fails are modelled by Model/HttpTunnel.v (tt_step) and compared exactly on timed hist cases",
         ],
         assumptions=["net/http Transport writes Request.Method, URL.RequestURI(), Host, Header and Body as given",
                      "Go map iteration order does not matter where keys are distinct"],
